@@ -1,5 +1,6 @@
 import NfpmModel.Spec.NameSpec
 import NfpmModel.Io
+import NfpmModel.Generated.G1Arch
 /-
   C15  Conventional file name agrees with inner metadata; CLI writes where asked.
 
@@ -188,5 +189,9 @@ theorem cli_dir_target_joined (target ext pk conv : Bytes) (ht : target ≠ []) 
 /-- … and for a directory given in clean form the file lands directly inside it under the conventional name -/
 example : resolveTarget b!"out/dist" [] true b!"deb" b!"foo_1.0.0_amd64.deb" = some (b!"deb", b!"out/dist/foo_1.0.0_amd64.deb") := by
   decide
+
+/-- the translator regenerated, on this run and from the working tree, every table this property is tied through
+    (when an extraction fails the reviewed table stands in so that the model still compiles, and this stops checking) -/
+theorem translator_tables_regenerated : Generated.extracted_G1Arch = true := by decide
 
 end Nfpm.Props.C15
